@@ -28,7 +28,7 @@ RULE = ("cases: a graph (PDAG code, random mixed PDAG, or signed weighted DAG) o
         ' Also: relabelled embeddings into 9..20 nodes, named shapes, 4,000 sampled p=5 PDAG codes, array presentations incl. the re-used buffer, the transposed view queried right after the graph, numpy-int nodes and frozensets, dense 9-13 node DAGs in int8/uint8/int16/bool for the closure.')
 ASSUMPTIONS = ["inputs outside the quantifier (non-zero diagonal, cyclic directed part) are counted out_of_domain and not judged"]
 EXHAUSTIVE = {"quick": True, "thorough": True}
-SOFT_LIMIT = {"quick": 240, "thorough": 1700}
+SOFT_LIMIT = {"quick": 1200, "thorough": 5400}      # generous wall-clock watchdogs (a loaded machine must not cut a workload short); normal run times are in the evidence
 REQUIRED_FUNCS = ["sempler/utils.py:" + f for f in ("pa", "ch", "neighbors", "adj", "na", "ancestors", "descendants", "an", "desc",
                                                      "transitive_closure", "semi_directed_paths", "separates", "chain_component")]
 _FUNCS = ("pa", "ch", "neighbors", "adj", "na", "ancestors", "descendants", "an", "desc", "transitive_closure",
